@@ -100,7 +100,7 @@ func runBounded(sp *BoundedSpec) boundedResult {
 	}
 	ctx, cancel := context.WithTimeout(context.Background(), 10*time.Minute)
 	defer cancel()
-	cmd := exec.CommandContext(ctx, "go", "test", "-overlay", ovFile, "-vet=off", "-count=1", "-timeout", "540s", "-run", "^"+sp.Run+"$", ".")
+	cmd := exec.CommandContext(ctx, "go", "test", "-overlay", ovFile, "-vet=off", "-count=1", "-timeout", "540s", "-v", "-run", "^"+sp.Run+"$", ".")
 	cmd.Dir = filepath.Join(repoRoot, sp.Pkg)
 	cmd.Env = append(os.Environ(), "GOFLAGS=-mod=mod", "GOPROXY=off", "GOSUMDB=off", "GOTOOLCHAIN=local")
 	var out bytes.Buffer
